@@ -894,6 +894,9 @@ func evalServerSub(op string, args []string) string {
 		}
 		return strings.TrimSpace(s + " CRASH")
 	}
+	if s == "" {
+		return "BAD-CASE" // (the in-process evaluator refused the case)
+	}
 	return s
 }
 
